@@ -23,7 +23,10 @@ func CheckC10(h *History, accept func(matcher string, d *Dgram, fam string) bool
 			add("unexpected-error", "call %d returned an error outside the allowed set: %s", c.ID, c.Err)
 			continue
 		}
-		if c.ErrKind == "inuse" && len(c.TxSeqs) > 0 {
+		// (single-try calls only: the pinned DHCPv6 client gives up its transaction id between two tries, a concurrent call
+		// may take it in that gap, and the first call's next try is then the one that is refused -- still "refused with an
+		// error rather than sharing responses")
+		if c.ErrKind == "inuse" && len(c.TxSeqs) > 0 && c.Tries == 1 {
 			add("refused-call-transmitted", "call %d was refused (%s) although it had already transmitted: a refusal must happen before anything is sent", c.ID, c.Err)
 			continue
 		}
